@@ -6,6 +6,7 @@
 -/
 import TypedpyModel.Spec.FragX
 import TypedpyModel.Lemmas.RoundTrip
+import TypedpyModel.Lemmas.DeserErr
 namespace Typedpy
 open PyVal (pyEq pyMem pyNodup)
 
@@ -125,11 +126,13 @@ theorem c05_noNone_deser (XO : XOracles) (opts : DeserOpts) (x : XDecl) (h : xNo
     exact ⟨.valueErr, by simp [deserX, PyVal.isNone, dEnumName, dValidated, vEnumVal, h], rfl⟩
   | fmtStr kind strict => exact ⟨.typeErr, by simp [deserX, PyVal.isNone, dFmtStr], rfl⟩
   | opt x => simp [xNoNone] at h
+  | anyOf xs => simp [xNoNone] at h
   | seqOf k x => exact ⟨.valueErr, by simp [deserX, PyVal.isNone, dSeq, docSeq], rfl⟩
   | setOf x => exact ⟨.valueErr, by simp [deserX, PyVal.isNone, dSeq, docSeq], rfl⟩
   | mapStr x => exact ⟨.typeErr, by simp [deserX, PyVal.isNone, dMap], rfl⟩
   | tuplePos xs => exact ⟨.valueErr, by simp [deserX, PyVal.isNone, dSeq, docSeq], rfl⟩
   | struct c fields => exact ⟨.typeErr, by simp [deserX, PyVal.isNone, dClassRef], rfl⟩
+  | structU c fields => exact ⟨.typeErr, by simp [deserX, PyVal.isNone, dClassRef], rfl⟩
 
 theorem c05_noNone_validate (XO : XOracles) (x : XDecl) (h : xNoNone x = true) :
     ∃ e, validateX XO x .none = .error e ∧ xOutside e = false := by
@@ -152,11 +155,13 @@ theorem c05_noNone_validate (XO : XOracles) (x : XDecl) (h : xNoNone x = true) :
     exact ⟨.valueErr, by simp [validateX, vEnumVal, h], rfl⟩
   | fmtStr kind strict => exact ⟨.typeErr, by simp [validateX, vFmtStr], rfl⟩
   | opt x => simp [xNoNone] at h
+  | anyOf xs => simp [xNoNone] at h
   | seqOf k x => exact ⟨.typeErr, by cases k <;> simp [validateX, vSeq, seqElems], rfl⟩
   | setOf x => exact ⟨.typeErr, by simp [validateX, vSet], rfl⟩
   | mapStr x => exact ⟨.typeErr, by simp [validateX, vMap], rfl⟩
   | tuplePos xs => exact ⟨.typeErr, by simp [validateX, vTuple], rfl⟩
   | struct c fields => exact ⟨.typeErr, by simp [validateX, vClassRef], rfl⟩
+  | structU c fields => exact ⟨.typeErr, by simp [validateX, vClassRef], rfl⟩
 
 theorem rtx_opt_none (XO : XOracles) (opts : DeserOpts) (x : XDecl) (h : xNoNone x = true) :
     RTX XO opts (.opt x) .none := by
@@ -345,6 +350,58 @@ theorem rtx_struct (XO : XOracles) (opts : DeserOpts) (c : ClassOpts) (fields : 
   · have hacc' : c.name ∈ c.accepts := by simpa using hacc
     simp [validateX, vClassRef, hacc']
 
+/-! ### AnyOf over extension kinds: an option that cannot take the document -/
+
+theorem c05_errcls_not_outside (e : ErrCls) (h : e = .typeErr ∨ e = .valueErr ∨ e = .both) : xOutside e = false := by
+  rcases h with rfl | rfl | rfl <;> rfl
+
+theorem c05_deserX_rejects_kind (XO : XOracles) (opts : DeserOpts) (x : XDecl) (j : PyVal)
+    (h : acceptsDocX x (docKind j) = false) :
+    ∃ e, deserX XO opts false x j = .error e ∧ xOutside e = false := by
+  cases x with
+  | base f =>
+    have hk : acceptsDoc f (docKind j) = false := by
+      cases hj : docKind j <;> simp [acceptsDocX, hj] at h ⊢ <;> exact h
+    cases hd : deser XO.base opts false f j with
+    | ok y => rw [c05_deser_ok_kind XO.base opts f j y hd] at hk; cases hk
+    | error e =>
+      exact ⟨e, by simp [deserX, hd], c05_errcls_not_outside e (deser_err XO.base opts f false j e hd)⟩
+  | decimal o =>
+    cases j <;> simp [acceptsDocX, docKind] at h
+    · exact ⟨.typeErr, by simp [deserX, PyVal.isNone, dDecimal, xConvDecimal, PyVal.asNum], rfl⟩
+    · exact ⟨.typeErr, by simp [deserX, PyVal.isNone, dDecimal, xConvDecimal, PyVal.asNum], rfl⟩
+  | enumVal cls ms mx =>
+    cases j <;> simp [acceptsDocX, docKind] at h
+    · exact ⟨.typeErr, by simp [deserX, PyVal.isNone, dEnumVal, unhashable], rfl⟩
+    · exact ⟨.typeErr, by simp [deserX, PyVal.isNone, dEnumVal, unhashable], rfl⟩
+  | temporal ty fmt ints =>
+    cases j <;> simp [acceptsDocX, docKind] at h
+    all_goals (refine ⟨.typeErr, ?_, rfl⟩; simp_all [deserX, PyVal.isNone, dTemporal])
+  | enumName cls ms mx => cases j <;> simp [acceptsDocX, docKind] at h
+  | fmtStr kind strict =>
+    cases j <;> simp [acceptsDocX, docKind] at h
+    all_goals (refine ⟨.typeErr, ?_, rfl⟩; simp_all [deserX, PyVal.isNone, dFmtStr])
+  | opt x => cases j <;> simp [acceptsDocX, docKind] at h
+  | anyOf xs => cases j <;> simp [acceptsDocX, docKind] at h
+  | seqOf k x =>
+    cases j <;> simp [acceptsDocX, docKind] at h
+    all_goals exact ⟨.valueErr, by simp [deserX, PyVal.isNone, dSeq, docSeq], rfl⟩
+  | setOf x =>
+    cases j <;> simp [acceptsDocX, docKind] at h
+    all_goals exact ⟨.valueErr, by simp [deserX, PyVal.isNone, dSeq, docSeq], rfl⟩
+  | tuplePos xs =>
+    cases j <;> simp [acceptsDocX, docKind] at h
+    all_goals exact ⟨.valueErr, by simp [deserX, PyVal.isNone, dSeq, docSeq], rfl⟩
+  | mapStr x =>
+    cases j <;> simp [acceptsDocX, docKind] at h
+    all_goals exact ⟨.typeErr, by simp [deserX, PyVal.isNone, dMap], rfl⟩
+  | struct c fields =>
+    cases j <;> simp [acceptsDocX, docKind] at h
+    all_goals exact ⟨.typeErr, by simp [deserX, PyVal.isNone, dClassRef], rfl⟩
+  | structU c fields =>
+    cases j <;> simp [acceptsDocX, docKind] at h
+    all_goals exact ⟨.typeErr, by simp [deserX, PyVal.isNone, dClassRef], rfl⟩
+
 /-! ### the round trip -/
 
 mutual
@@ -369,6 +426,10 @@ theorem xround_trip (XO : XOracles) (opts : DeserOpts) : ∀ (x : XDecl) (v : Py
     · have hn' : v.isNone = false := by simpa using hn
       simp only [hn', Bool.false_eq_true, if_false] at h
       exact rtx_opt_some XO opts x v hn' (xround_trip XO opts x v h)
+  | .anyOf xs, v, h => by
+    simp only [xFrag] at h
+    rcases xround_trip_any XO opts xs v h with ⟨j, h1, h2, h3, h4, h5⟩
+    exact ⟨j, by simpa [serX] using h1, h2, h3, by simp [deserX, h4], by simpa [validateX] using h5⟩
   | .seqOf k x, v, h => by
     simp only [xFrag] at h
     cases hs : seqElems k v with
@@ -439,6 +500,7 @@ theorem xround_trip (XO : XOracles) (opts : DeserOpts) : ∀ (x : XDecl) (v : Py
       · simp only [deserX, PyVal.isNone, Bool.false_and, Bool.false_eq_true, if_false]; exact this.2.2.1
       · simp only [validateX]; exact this.2.2.2
     | _ => simp at h
+  | .structU _ _, _, h => by simp [xFrag] at h
   | .struct c fields, v, h => by
     simp only [xFrag, and_true_iff] at h
     obtain ⟨⟨hacc, hnd⟩, hv⟩ := h
@@ -454,6 +516,41 @@ theorem xround_trip (XO : XOracles) (opts : DeserOpts) : ∀ (x : XDecl) (v : Py
         (xCanonAttrs_names XO c fields attrs hcan)
         (xCanonAttrs_nonNone XO c fields attrs hcan) g1 g2 g3 g4 g5
     | _ => simp at hv
+
+theorem xround_trip_any (XO : XOracles) (opts : DeserOpts) : ∀ (xs : List XDecl) (v : PyVal),
+    xFragAny XO xs v = true →
+    ∃ j, serAnyX XO xs v = .ok j ∧ isJson j = true ∧ j.isNone = v.isNone
+      ∧ deserAnyX XO opts xs j = .ok v ∧ validateAnyX XO xs v = .ok v
+  | [], _, h => by simp [xFragAny] at h
+  | x :: xs, v, h => by
+    simp only [xFragAny] at h
+    rcases (Bool.or_eq_true _ _).mp h with hc | hs
+    · simp only [and_true_iff] at hc
+      rcases xround_trip XO opts x v hc.2 with ⟨j, h1, h2, h3, h4, h5⟩
+      exact ⟨j, by simp [serAnyX, hc.1, h1, xFirst], h2, h3, by simp [deserAnyX, h4, xFirst],
+        by simp [validateAnyX, h5, xFirst]⟩
+    · simp only [and_true_iff] at hs
+      obtain ⟨⟨⟨hser, hval⟩, hdoc⟩, hrest⟩ := hs
+      rcases xround_trip_any XO opts xs v hrest with ⟨j, g1, g2, g3, g4, g5⟩
+      simp only [g1, Bool.not_eq_true'] at hdoc
+      rcases c05_deserX_rejects_kind XO opts x j hdoc with ⟨e1, hd, ho1⟩
+      have hv : ∃ e, validateX XO x v = .error e ∧ xOutside e = false := by
+        cases hvv : validateX XO x v with
+        | error e => simp [hvv] at hval; exact ⟨e, rfl, hval⟩
+        | ok y => simp [hvv] at hval
+      rcases hv with ⟨e2, hv, ho2⟩
+      have hS : serAnyX XO (x :: xs) v = .ok j := by
+        simp only [serAnyX]
+        cases hsh : shallowOkX XO x v with
+        | false => simp [g1]
+        | true =>
+          simp only [hsh, Bool.not_true, Bool.false_or] at hser
+          cases hsx : serX XO x v with
+          | ok y => simp [hsx] at hser
+          | error e =>
+            simp only [hsx, Bool.not_eq_true'] at hser
+            simp [xFirst, hser, g1]
+      exact ⟨j, hS, g2, g3, by simp [deserAnyX, hd, xFirst, ho1, g4], by simp [validateAnyX, hv, xFirst, ho2, g5]⟩
 
 theorem xround_trip_zip (XO : XOracles) (opts : DeserOpts) : ∀ (xs : List XDecl) (ys : List PyVal),
     ys.length = xs.length → xFragZip XO xs ys = true →
